@@ -134,13 +134,14 @@ def drive_l1(proto_kind, stream, cuts, termination, prefix_len=None):
         for ch in bytesgen.split(data, cuts) if data else []:
             if loop.do(tr.feed, ch):
                 delivered += ch
+        cut_off_by_client = tr.closing  # did the client hang up before the peer ended the stream?
         if termination == "close":
             loop.do(tr.peer_eof)
         else:
             loop.do(tr.peer_reset)
         loop.settle()
         end = loop.run_until(1000.0)
-        out = {"done": fut.done(), "written": bytes(tr.written), "delivered": bytes(delivered), "loop_exceptions": list(loop.exceptions), "fatal": repr(tr.fatal) if tr.fatal else None}
+        out = {"done": fut.done(), "cut_off_by_client": cut_off_by_client, "written": bytes(tr.written), "delivered": bytes(delivered), "loop_exceptions": list(loop.exceptions), "fatal": repr(tr.fatal) if tr.fatal else None}
         if fut.done():
             if fut.cancelled():
                 out["result"] = ("cancelled",)
@@ -275,7 +276,28 @@ def run_l1_cap(ctx):
                 ctx.count("monitor", "futures_resolved")
                 if kind == "error":
                     ctx.count("monitor", "errors_expected_and_seen")
+            if extra > 0 and not out.get("cut_off_by_client"):
+                ctx.violation("cap-not-enforced:not-cut-off:stream=2x-oversize", "server sent more than the cap but the client did not hang up", wit)
             ctx.case(("cap", extra, proto_kind, res[0] if res else None), True, sample={"stream": "20 application/octet-stream + %d bytes" % (CAP + extra), "result": str(wit["observed"])[:80]})
+    # a server that streams more than the cap without ever finishing a header line
+    for name, stream in (("no-crlf", b"x" * (CAP + 200_000)), ("digits-no-crlf", b"20 " + b"m" * (CAP + 200_000)), ("lf-only-lines", b"20 text/gemini\n" * ((CAP + 200_000) // 15))):
+        cuts = tuple(range(65536, len(stream), 65536))
+        for proto_kind in ("gemini", "titan"):
+            out = drive_l1(proto_kind, stream, cuts, "close")
+            res = out.get("result")
+            ctx.count("monitor", "l1_runs")
+            wit = {"stream_class": "oversize-" + name, "stream_len": len(stream), "protocol": proto_kind, "observed": res[:3] if res else None, "cut_off_by_client": out.get("cut_off_by_client")}
+            if not out["done"]:
+                ctx.violation(f"hang-after-close:stream=oversize-{name}:protocol={proto_kind}", "future not resolved", wit)
+            elif res[0] != "error":
+                ctx.violation(f"cap-not-enforced:stream=oversize-{name}:protocol={proto_kind}", "more than the cap without a header was accepted", wit)
+            elif not out.get("cut_off_by_client"):
+                ctx.violation(f"cap-not-enforced:not-cut-off:stream=oversize-{name}:protocol={proto_kind}", f"server streamed {len(stream)} bytes (> cap) without a CRLF; the client kept buffering until the server closed", wit)
+            else:
+                ctx.count("monitor", "futures_resolved")
+                ctx.count("monitor", "errors_expected_and_seen")
+                ctx.count("outcome", f"oversize-{name}:cut-off")
+            ctx.case(("cap", name, proto_kind, res[0] if res else None, out.get("cut_off_by_client")), True, sample=wit)
 
 
 # --------------------------------------------------------------------------- L3
